@@ -11,7 +11,9 @@ SHORTS = "abcdovxSqzf"
 SUBS = ["sub", "su", "run", "ru", "test", "t", "add", "hx"]
 VALUES = [b"v", b"w", b"x1", b"", b"a,b", b"a,,b", b"1", b"-1", b"-x", b"--y", b"sub", b"run", b"help", b"=", b"v=w",
           b"\xff", b"-", b"--", b"true", b"false", b"300", b"END", b"0", b"255", "é".encode(),
-          b"a,\xff", b"\xffb,c"]     # a declared delimiter next to bytes that are not UTF-8: splitting is byte-level
+          b"a,\xff", b"\xffb,c",     # a declared delimiter next to bytes that are not UTF-8: splitting is byte-level
+          # long non-ASCII values: an error message that echoes (part of) a rejected value must still render
+          ("\u00e4" * 70).encode(), b"a" * 63 + ("\u65e5\u672c\u8a9e" * 4).encode(), b"x" * 62 + ("\u00e9" * 40).encode()]
 SAFE_VALUES = [b"v", b"w", b"x1", b"a,b", b"1", b"v=w", b"true", b"0", b"zz", b"3"]
 
 
@@ -111,7 +113,17 @@ def cmd_sx(c):
         it.append("(set %s)" % " ".join(c["settings"]))
     if c.get("ext"):
         it.append("(ext %s)" % c["ext"])
-    for a in c.get("args", []):
+    args = list(c.get("args", []))
+    if c.get("decl_order"):
+        # positionals with explicit indices may be DECLARED in any order (Arg::index decides, not the declaration):
+        # the python side keeps them in index order, only the printed definition is permuted
+        pos_slots = [k for k, a in enumerate(args) if a.get("index") is not None and not a.get("short") and not a.get("long")]
+        perm = [pos_slots[j] for j in c["decl_order"] if j < len(pos_slots)]
+        if sorted(perm) == pos_slots:
+            permuted = [args[k] for k in perm]
+            for slot, a in zip(pos_slots, permuted):
+                args[slot] = a
+    for a in args:
         it.append(arg_sx(a))
     for g in c.get("groups", []):
         it.append(group_sx(g))
@@ -285,6 +297,10 @@ def gen_cmd(rng, prof, depth=0, path="p", used_env=None, inherited=None):
     required_upto = rng.randrange(0, npos + 1) if chance(rng, 0.5) else 0
     low_index = (not prof.conventional) and npos >= 2 and chance(rng, prof.low_index)
     explicit_index = chance(rng, 0.3)
+    if explicit_index and npos >= 2 and chance(rng, 0.5):
+        order = list(range(npos))
+        rng.shuffle(order)
+        c["decl_order"] = order
     if low_index:
         required_upto = npos
     for k in range(npos):
@@ -409,8 +425,11 @@ def gen_cmd(rng, prof, depth=0, path="p", used_env=None, inherited=None):
                     glob["shorts"].add(a["short"])
                 for n, _ in a.get("saliases", []):
                     glob["shorts"].add(n)
+        # with the generated `help` subcommand disabled, a USER subcommand may be called `help` (it is an ordinary
+        # subcommand then: global arguments are copied into it like into any other)
+        pool = SUBS + ["help", "help"] if "disable_help_subcommand" in S else SUBS
         for k in range(rng.randrange(1, 3)):
-            n = pick(rng, SUBS)
+            n = pick(rng, pool)
             if n in names:
                 continue
             names.add(n)
